@@ -483,3 +483,5 @@ def run(ctx):
     ctx.guard(c11.r11_1)
     ctx.guard(c11.r11_2)       # ... and are differentiated with a graph (a graph-less forward value gives a silent zero vjp)
     ctx.guard(c11.r11_4)
+    from . import c13
+    ctx.guard(c13.r13_1)      # no state kept on the adjoint SDE / adjoint solver between evaluations
